@@ -170,6 +170,11 @@ class SCCReader(BaseReader):
     """
 
     def __init__(self, *args, **kw):
+        self._reset()
+
+    def _reset(self):
+        """(Re)initialize the decoding state, so that a reader object can be
+        used for more than one document"""
         self.caption_stash = CaptionCreator()
         self.time_translator = _SccTimeTranslator()
 
@@ -232,6 +237,9 @@ class SCCReader(BaseReader):
         """
         if not isinstance(content, str):
             raise InvalidInputError("The content is not a unicode string.")
+
+        # forget whatever a previous read() left behind
+        self._reset()
 
         self.simulate_roll_up = simulate_roll_up
         self.time_translator.offset = offset * 1000000
